@@ -32,7 +32,27 @@ for d in sorted(glob.glob('seeded/*')):
     st += '| `%s` | %s. *Needs*: %s | %s | %s |\n' % (n, summ, needs, c[0], c[1])
     nseeds += 1
 
+# behaviour-preserving refactor rounds: patches that raised an alarm when first evaluated
+pt = '| patch | refactoring | rules that alarmed when first evaluated |\n|---|---|---|\n'
+npres = 0
+for rnd, dirn, alarms in (('1', 'tools/preserving', 'tools/preserving/round1_alarms.json'), ('2', 'tools/preserving2', 'tools/preserving2/round2_alarms.json')):
+    if not os.path.exists(alarms):
+        continue
+    al = json.load(open(alarms))
+    npres += len(glob.glob(dirn + '/C*/p*.diff'))
+    for k in sorted(al):
+        pid, pn = k.split('/')
+        desc = ''
+        rd = '%s/%s/README.txt' % (dirn, pid)
+        if os.path.exists(rd):
+            for line in open(rd):
+                if line.startswith(pn + '.diff') or line.startswith(pn + ':') or line.startswith(pn + ' '):
+                    desc = re.split(r'\.? Tests?:', line.strip())[0]
+                    desc = re.sub(r'^p\d+(\.diff)?[: ]\s*', '', desc)[:260]
+        pt += '| r%s %s | %s | %s |\n' % (rnd, k, desc.replace('|', '\\|'), ', '.join('`%s`' % x.replace('|', '\\|') for x in al[k][:4]) + (' …' if len(al[k]) > 4 else ''))
+
 tail = open('tools/design_tail.md').read()
+tail = tail.replace('@@PRESERVING@@', pt).replace('@@NPRESERVING@@', str(npres))
 tail = tail.replace('@@SEEDS@@', st).replace('@@VARIANTS@@', vt).replace('@@NVARIANTS@@', str(len(rows))).replace('@@NSEEDS@@', str(nseeds))
 open('DESIGN.md', 'w').write(head + tail)
 print(len(rows), 'variants,', nseeds, 'seeded changes')
